@@ -11,7 +11,7 @@ import (
 func init() {
 	register(&Rule{
 		ID:    "C07.empty-point",
-		Props: []string{"C07", "C20"},
+		Props: []string{"C07", "C20", "C15", "C09"},
 		Doc:   "Point.coords may be read outside Point's own methods only where the point is known non-empty (guard on .full / !IsEmpty() of the same value), or the function requires a non-empty argument and every call site establishes it",
 		Floor: 3,
 		Run:   runC07EmptyPoint,
